@@ -222,12 +222,23 @@ pub fn judge_c05(m: &GenModel, truth: Verdict, cfg: &RunCfg, res: &RunResult) ->
                         ));
                     }
                 }
+                // the generated data is small (|coefficients| <= 15): a "solution" of
+                // magnitude 1e12 and more is an interior-point iterate that ran away, a
+                // different failure from a plausible-looking wrong answer
                 Verdict::Infeasible => out.push(f(
-                    "solution-for-infeasible",
+                    if sol.value.abs() > 1e12 {
+                        "solution-for-infeasible:huge"
+                    } else {
+                        "solution-for-infeasible"
+                    },
                     format!("returned a solution (value {}) for an infeasible model", sol.value),
                 )),
                 Verdict::Unbounded => out.push(f(
-                    "optimum-for-unbounded",
+                    if sol.value.abs() > 1e12 {
+                        "optimum-for-unbounded:huge"
+                    } else {
+                        "optimum-for-unbounded"
+                    },
                     format!("returned an optimum (value {}) for an unbounded model", sol.value),
                 )),
             },
